@@ -1055,6 +1055,73 @@ theorem own_file_monotone (c : ℚ → Nat) (thr ε : ℚ) (fs : List (Feat ℚ)
   refine ⟨hs, aligned_monotone _ _ _ _ _ ?_ hs.1 h⟩
   exact_mod_cast maxRtNat_pos c fs f
 
+/-! ### closed forms (large-scale op) -/
+
+section field
+variable {α : Type} [Field α] [LinearOrder α] [IsStrictOrderedRing α]
+
+/-- `Σ x²` -/
+def sXX (pts : List (α × α)) : α := (pts.map fun p => p.1 * p.1).sum
+
+omit [LinearOrder α] [IsStrictOrderedRing α] in
+/-- **C20.fit_closed_form** — the per-file regression is a closed form of `n, Σx, Σy, Σxy, Σx²` over the
+    anchors: `slope = (Σxy − Σx·Σy/n) / (ε + Σx² − (Σx)²/n)`, `intercept = Σy/n − slope·Σx/n`. This is
+    what the driver's O(n) exact-arithmetic model of the large-scale op `alignbig` evaluates; ALL anchors
+    enter every sum (no cap), any `n`. -/
+theorem fit_closed_form (ε : α) (pts : List (α × α)) (hn : (pts.length : α) ≠ 0) :
+    fit ε pts =
+      (let n : α := (pts.length : α)
+       let slope := (sXY pts - sX pts * sY pts / n) / (ε + (sXX pts - sX pts * sX pts / n))
+       (slope, sY pts / n - slope * (sX pts / n))) := by
+  have h1 : sSq pts (sX pts / (pts.length : α)) = sXX pts - sX pts * sX pts / (pts.length : α) := by
+    rw [sSq_expand]; unfold sXX; field_simp; ring
+  have h2 : sXY pts - (pts.length : α) * (sX pts / (pts.length : α)) * (sY pts / (pts.length : α))
+      = sXY pts - sX pts * sY pts / (pts.length : α) := by field_simp
+  simp only [fit_eq, h1, h2]
+
+/-- **C20.diag_fit_eq** — a file all of whose regression points have `y = x` (on its own, or every other
+    file that shares a peptide has exactly the same normalised RT for it): `slope = Sxx/(ε + Sxx)` and
+    `intercept = x̄·(1 − slope)`, exactly. Sharpens `own_file_slope`; spec clause `diagonal_fit_ne_closed_form`. -/
+theorem diag_fit_eq (pts : List (α × α)) (ε : α) (_hε : 0 < ε) (hy : ∀ p ∈ pts, p.2 = p.1) :
+    (fit ε pts).1 = sxx pts / (ε + sxx pts) ∧
+    (fit ε pts).2 = (sX pts / (pts.length : α)) * (1 - (fit ε pts).1) := by
+  have hxy : sXY pts = (pts.map fun p => p.1 * p.1).sum := by
+    unfold sXY; congr 1; apply List.map_congr_left; intro p hp; rw [hy p hp]
+  have hsy : sY pts = sX pts := by
+    unfold sY sX; congr 1; apply List.map_congr_left; intro p hp; exact hy p hp
+  have hnum : sXY pts - (pts.length : α) * (sX pts / (pts.length : α)) * (sY pts / (pts.length : α))
+      = sSq pts (sX pts / (pts.length : α)) := by
+    rw [sSq_expand, hxy, hsy]
+    by_cases hn : (pts.length : α) = 0
+    · have : pts = [] := by
+        by_contra hne
+        exact cast_length_ne_zero pts hne hn
+      subst this; simp [sX]
+    · field_simp; ring
+  rw [hsy] at hnum
+  simp only [fit_eq, hsy, hnum]
+  exact ⟨rfl, by ring⟩
+
+/-- **C20.diag_fit_dev** — such a file's map is the identity on normalised RTs up to the regulariser:
+    `|aligned(x) − x| ≤ |x − x̄|·ε/Sxx`. Two such files therefore send the same normalised RT to aligned
+    times at most `ε(|x−x̄_f|/Sxx_f + |x−x̄_g|/Sxx_g)` apart, however different their peptide sets are —
+    the form of the equivariance clause used for `alignbig` (file 1 = file 0 doubled, half the peptides). -/
+theorem diag_fit_dev (pts : List (α × α)) (ε x : α) (hε : 0 < ε) (hS : 0 < sxx pts)
+    (hy : ∀ p ∈ pts, p.2 = p.1) :
+    |((fit ε pts).1 * x + (fit ε pts).2) - x| ≤ |x - sX pts / (pts.length : α)| * (ε / sxx pts) := by
+  obtain ⟨h1, h2⟩ := diag_fit_eq pts ε hε hy
+  rw [h2, h1]
+  have hd : 0 < ε + sxx pts := by linarith
+  have e : sxx pts / (ε + sxx pts) * x + sX pts / (pts.length : α) * (1 - sxx pts / (ε + sxx pts)) - x
+      = -(x - sX pts / (pts.length : α)) * (ε / (ε + sxx pts)) := by
+    field_simp; ring
+  rw [e, abs_mul, abs_neg]
+  apply mul_le_mul_of_nonneg_left _ (abs_nonneg _)
+  rw [abs_of_nonneg (div_nonneg hε.le hd.le)]
+  exact div_le_div_of_nonneg_left hε.le hS (by linarith)
+
+end field
+
 /-! ## non-vacuity examples -/
 
 /-- `ols_equivariant`: three points, `x' = 2x + 3`: hypotheses hold and both sides are the same number -/
@@ -1138,5 +1205,9 @@ example :
     let c : ℚ → Nat := fun r => (Rat.ceil r).toNat
     (alignFile id c (1 / 100) fs (rtRows c (1 / 100) fs 2) 0).2.1 = 175 / 181 := by
   decide +kernel
+
+/-- `diag_fit_eq` / `fit_closed_form` on x = y ∈ {1/4, 1/2, 1}, ε = 1/100 -/
+example : (fit (1 / 100) [((1 / 4 : ℚ), (1 / 4 : ℚ)), (1 / 2, 1 / 2), (1, 1)]) = (175 / 181, 7 / 12 * (1 - 175 / 181)) := by
+  norm_num [fit, sumFrom]
 
 end Sage.C20
